@@ -718,6 +718,60 @@ def raising_on_connect_probe(n_failures_before):
     return simnet.run(go)
 
 
+def stop_start_stop_probe():
+    """start(); a session is established; stop() (the session stays up); the session ends and the application's on_disconnect
+    callback takes a while; during it start() is called and then stop(). Once that last stop() has returned the manager never
+    starts another attempt. Returns (attempts made after the last stop() returned, events)."""
+    def go(loop):
+        async def inner():
+            from aioesphomeapi.reconnect_logic import ReconnectLogic
+            run = Run(loop)
+            cli = run.cli
+            events = []
+            gate = loop.create_future()
+
+            async def on_connect():
+                events.append("connect")
+
+            async def on_disconnect(expected):
+                events.append("disconnect-begin")
+                await gate
+                events.append("disconnect-end")
+
+            async def on_connect_error(err):
+                events.append("error")
+            rl = ReconnectLogic(client=cli, on_connect=on_connect, on_disconnect=on_disconnect, on_connect_error=on_connect_error, name="dev")
+            await rl.start()
+            await simnet.drain(loop)
+            cli.pending[1].set_result(None)
+            await simnet.drain(loop)
+            cli.pending[1].set_result(None)
+            await simnet.drain(loop)
+            await rl.stop()
+            await simnet.drain(loop)
+            cli.alive = False
+            stop_hook = asyncio.ensure_future(cli.on_stop(False))
+            await simnet.drain(loop)
+            t_start = asyncio.ensure_future(rl.start())
+            await simnet.drain(loop)
+            t_stop = asyncio.ensure_future(rl.stop())
+            await simnet.drain(loop)
+            gate.set_result(None)
+            await simnet.drain(loop)
+            await asyncio.wait([t_stop, t_start, stop_hook], timeout=5)
+            n_at_return = len(cli.attempt_times)
+            events.append("last stop() returned" if t_stop.done() else "last stop() still pending")
+            await simnet.advance(loop, by=120.0)
+            after = len(cli.attempt_times) - n_at_return
+            in_flight = cli.pending is not None
+            for t in asyncio.all_tasks(loop):
+                if t is not asyncio.current_task():
+                    t.cancel()
+            return after, in_flight, n_at_return, events
+        return inner()
+    return simnet.run(go)
+
+
 def name_forms_probe(name, address, ctor_name="<same>", record_for=None):
     """ReconnectLogic(name=...) for a client addressed by `address`: after a failed attempt a matching mDNS record for the device
     (named by `name`, or - when no name is given - by the host part of a local address) starts the next attempt at once.
@@ -873,6 +927,13 @@ def run_integration_probes(rep):
             rep.violation("C18/record-ignored" if want else "C18/foreign-record", f"ReconnectLogic(name={ctor_name!r}) for a client addressed {address!r}, then name = {name!r} assigned before start(); one attempt "
                           f"failed, then an mDNS record for {record_for or name!r} arrives while it is waiting: {res} (expected {want} attempt(s) at once, listener removed by stop())",
                           {"kind": "name-forms", "name": name, "address": address, "ctor_name": ctor_name, "record_for": record_for})
+    after, in_flight, n_at_return, events = stop_start_stop_probe()
+    replay = {"kind": "stop-start-stop"}
+    rep.case(("stop-start-stop",), True, sample={"probe": replay, "attempts_after_last_stop": after, "events": events})
+    rep.bump("probe:stop-start-stop")
+    if after or in_flight or n_at_return != 1:
+        rep.violation("C18/attempt-after-stop", f"start(), session up, stop(), the session ends with a slow on_disconnect callback during which start() and then stop() are called: "
+                      f"{n_at_return - 1} attempt(s) had been started when the last stop() returned and {after} after it (attempt in flight at the end: {in_flight}); events {events}", replay)
     for n_before in (0, 2, 5):
         gap, events = raising_on_connect_probe(n_before)
         replay = {"kind": "raising-on-connect", "failures_before": n_before}
@@ -1024,6 +1085,10 @@ def replay(path):
         common.setup_impl_path()
         print(owned_engine_restart_probe(d["cycles"]))
         return 0
+    if d.get("kind") == "stop-start-stop":
+        r = stop_start_stop_probe()
+        print(r)
+        return 1 if (r[0] or r[1] or r[2] != 1) else 0
     if d.get("kind") == "raising-on-connect":
         r = raising_on_connect_probe(d["failures_before"])
         print(r)
